@@ -12,6 +12,7 @@ import DdnnfVerif.Model.Persist
 import DdnnfVerif.Model.Atomic
 import DdnnfVerif.Model.D4Load
 import DdnnfVerif.Model.StreamMsg
+import DdnnfVerif.Model.Edit
 import DdnnfVerif.Proofs.PDLeaf
 import DdnnfVerif.Proofs.CnfExport
 namespace Ddnnf
@@ -207,6 +208,11 @@ def answer (nodes : List NType) (n : Nat) (kind : String) (args : List String) :
           ";".intercalate ((atomicSets nodes n (cs.filterMap String.toNat?) (parseIntsD As) (cross == "1") []).map fmtInts)
       | [] => "bad-args"
   | "d4load" => d4loadAnswer args
+  | "addunit" =>
+      -- `q addunit f`: the edited feature count and node array
+      let f := (args.headD "0").toInt?.getD 0
+      let (n', out) := addUnit nodes n f
+      s!"{n'} " ++ "|".intercalate (out.map fmtNode)
   | "c2dload" => c2dloadAnswer args
   | "enumok" => toString (enumOkB nodes)
   | "models" => fmtCfgs (models nodes (rootIx nodes))
